@@ -52,6 +52,7 @@ static uintptr_t SV_make(uintptr_t p, uintptr_t m) { XV_XASSERT((p & SV_BIT) == 
 
 /* ---------------- glue for the lowered text ---------------- */
 static void g_ctor(struct guard*, mptr); static void g_reset(struct guard*); static void g_do_swap(struct guard*, struct guard*);
+#define XV_DERIVED_do_swap(self, g) g_do_swap((self), (g))      /* self().do_swap(g): static dispatch to hazard_pointer::guard_ptr::do_swap */
 static void hp_set_object(struct hp_slot*, uintptr_t); static void hp_set_link(struct hp_slot*, struct hp_slot*);
 static struct hp_slot* hp_get_link(struct hp_slot*); static _Bool hp_is_link(struct hp_slot*);
 static struct hp_slot* cb_begin(struct cb*); static struct hp_slot* cb_end(struct cb*); static size_t cb_number_of_hps(struct cb*);
